@@ -15,6 +15,7 @@ import (
 	"math"
 	"os"
 	"strconv"
+	"time"
 )
 
 type item struct {
@@ -171,6 +172,15 @@ func LoopBound(k int) {}
 
 // MapOrder asks gosym to fork over map iteration orders from here on.
 func MapOrder(on bool) {}
+
+// ClockAdvance: time passes. Under gosym the clock is an arbitrary
+// non-decreasing sequence anyway (no-op); natively the replay waits so that
+// the wall clock really shows a later second.
+func ClockAdvance() {
+	if os.Getenv("VERIF_REPLAY") != "" {
+		time.Sleep(1100 * time.Millisecond)
+	}
+}
 
 // Done is called by the replay driver after the harness returned normally.
 func Done() {
